@@ -145,6 +145,9 @@ static void nc_build(void)
     W_REG(A8); W_REG(P8); W_REG(B8); W_REG(A16); W_REG(P16); W_REG(A32); W_REG(P32); W_REG(N32); W_REG(R32); W_REG(W32);
     W_REG(CsdoCobTx); W_REG(CsdoCobRx); W_REG(CsdoNode);
     for (i = 0; i < CO_SSDO_N; i++) w_nohash_range(&Node.Sdo[i].Frm, sizeof Node.Sdo[i].Frm);
+    /* these harnesses only use expedited transfers: the server is idle between steps and the multiplexer / abort
+     * override latched from the last request are overwritten by the next one before they are read */
+    if (CO_SSDO_N == 1) { w_nohash_range(&Node.Sdo[0].Idx, sizeof Node.Sdo[0].Idx); w_nohash_range(&Node.Sdo[0].Sub, sizeof Node.Sdo[0].Sub); w_nohash_range(&Node.Sdo[0].Abort, sizeof Node.Sdo[0].Abort); }
 #if USE_CSDO
     for (i = 0; i < CO_CSDO_N; i++) w_nohash_range(&Node.CSdo[i].Frm, sizeof Node.CSdo[i].Frm);
 #endif
